@@ -30,6 +30,22 @@ BUILD = os.path.join(ROOT, "build")
 LOGS = os.path.join(ROOT, "logs")
 REPO = "/repo"
 
+# Development aid: VERIF_REPO=<worktree> runs the same checks against another checkout of the
+# repository (a seeded mutant in a scratch worktree) without touching /repo. The harness crate is
+# copied next to a private build directory and its path dependency is rewritten. Registered
+# commands never set it; evidence is not written in this mode.
+ALT_REPO = os.environ.get("VERIF_REPO")
+if ALT_REPO:
+    REPO = os.path.abspath(ALT_REPO)
+    BUILD = os.path.join(ROOT, "build", "alt-" + os.path.basename(REPO))
+    os.makedirs(BUILD, exist_ok=True)
+    subprocess.run(["rsync", "-a", "--delete", "--exclude", "target", HARNESS + "/", os.path.join(BUILD, "harness") + "/"], check=True)
+    HARNESS = os.path.join(BUILD, "harness")
+    SRC = os.path.join(HARNESS, "src")
+    _ct = open(os.path.join(HARNESS, "Cargo.toml")).read().replace('path = "/repo"', 'path = "%s"' % REPO)
+    open(os.path.join(HARNESS, "Cargo.toml"), "w").write(_ct)
+    LOGS = os.path.join(BUILD, "logs")
+
 ENV = dict(os.environ)
 ENV["CARGO_NET_OFFLINE"] = "true"
 ENV.setdefault("CARGO_TERM_COLOR", "never")
@@ -833,7 +849,7 @@ def main():
         "wall_s": round(wall, 1),
         "violations": len(violations),
     }
-    if not a.no_evidence and not a.only:
+    if not a.no_evidence and not a.only and not ALT_REPO:
         os.makedirs(os.path.join(ROOT, "evidence"), exist_ok=True)
         json.dump(ev, open(os.path.join(ROOT, "evidence", prop + ".json"), "w"), indent=1)
 
